@@ -434,6 +434,10 @@ class Evaluator:
             if isinstance(e, dict):
                 if "f" in e:
                     name = e["f"]
+                    adt = e.get("adt", "")
+                    # Box<T> internals: (*b) is reached through .0.pointer; erase them
+                    if "boxed::Box" in adt or "ptr::Unique" in adt or "ptr::NonNull" in adt or "ptr::non_null::NonNull" in adt or "ptr::unique::Unique" in adt:
+                        continue
                     # checked arithmetic: (x, overflow).0 -> x
                     if v[0] == "chk":
                         v = v[1] if e["i"] == 0 else ("ovf", v[1])
@@ -1035,17 +1039,36 @@ class Walker:
                 if o == want:
                     self._go(b2, st, path, visited)
                     return
-            # a previous 'other' outcome: follow otherwise when compatible
+            # a previous 'other' outcome only excludes values: the explicit cases not excluded earlier stay
+            # possible, and the new 'other' excludes the union
             if isinstance(want, tuple) and want[0] == "other":
+                opts = []
                 for o, b2 in options:
                     if isinstance(o, tuple) and o[0] == "other":
-                        self._go(b2, st, path, visited)
-                        return
-                # refine: any option not excluded earlier
-                opts = [(o, b2) for o, b2 in options if o not in want[1]]
+                        opts.append((("other", tuple(sorted(set(want[1]) | set(o[1])))), b2))
+                    elif o not in want[1]:
+                        opts.append((o, b2))
                 options = opts
+                if len(options) == 1 and isinstance(options[0][0], tuple) and options[0][0][0] == "other" and set(options[0][0][1]) == set(want[1]):
+                    self._go(options[0][1], st, path, visited)
+                    return
             elif isinstance(want, tuple) and want[0] == "variants":
-                options = [(o, b2) for o, b2 in options if (o[0] == "variant" and o[1] in want[1]) or o[0] == "variants"]
+                opts = []
+                for o, b2 in options:
+                    if o[0] == "variant" and o[1] in want[1]:
+                        opts.append((o, b2))
+                    elif o[0] == "variants":
+                        inter = tuple(x for x in o[1] if x in want[1])
+                        if len(inter) == 1:
+                            opts.append((("variant", inter[0]), b2))
+                        elif inter:
+                            opts.append((("variants", inter), b2))
+                options = opts
+                if len(options) == 1:
+                    st["known"][akey] = options[0][0]
+                    path.guards.append((atom, options[0][0]))
+                    self._go(options[0][1], st, path, visited)
+                    return
             else:
                 # known concrete value not among the explicit targets -> otherwise
                 self._go(t["otherwise"], st, path, visited)
